@@ -160,8 +160,25 @@ impl Storm {
         if cfg.emode {
             configure_emode(&mut w, &mut r, g).await;
         }
+        if cfg.with_staked {
+            // staked-collateral bank over planted single-pool accounts
+            let admin = clone_kp(&w.groups[g].admin);
+            let p = w.chain.payer.pubkey();
+            let sol_oracle = w.next_kp().pubkey();
+            w.set_pyth(&sol_oracle, PythPx::simple(150_000_000, -6, now));
+            let st = marginfi::instructions::StakedSettingsConfig { oracle: sol_oracle, asset_weight_init: wi(0.8), asset_weight_maint: wi(0.9), deposit_limit: u64::MAX, total_asset_value_init_limit: 0, oracle_max_age: 600, risk_tier: RiskTier::Collateral };
+            let i = ix::init_staked_settings(w.groups[g].key, admin.pubkey(), p, st);
+            if w.raw_send(&[i], &[&admin]).await.ok() {
+                let _ = w.add_staked_bank(g, sol_oracle, 101_000_000_000, 0).await;
+            }
+        }
+        let staked_mint = if cfg.with_staked { w.mints.len().checked_sub(1) } else { None };
         for _ in 0..cfg.n_users {
             let u = w.add_user(fund).await;
+            if let Some(sm) = staked_mint {
+                // add_user minted `fund` of every mint incl. the LST (harness is its mint authority)
+                let _ = sm;
+            }
             w.add_account(g, u).await;
             if r.gen_bool(0.3) {
                 w.add_account(g, u).await;
@@ -266,10 +283,72 @@ impl Storm {
             }
             89..=94 => self.try_liquidate(w, m).await,
             95..=96 => self.try_bankruptcy(w, m, a).await,
+            97 => self.account_lifecycle(w, m, a).await,
             _ => self.flashloan(w, m, a, b).await,
         };
         if out.ok() {
             self.accepted += 1;
+        }
+    }
+
+    /// transfer to a new account, close an (empty) account, freeze / unfreeze, admin flips a
+    /// bank's asset tag while positions exist
+    pub async fn account_lifecycle(&mut self, w: &mut World, m: &mut Mon, a: usize) -> crate::chain::TxOut {
+        let gk = w.groups[self.g].key;
+        let admin = clone_kp(&w.groups[self.g].admin);
+        let auth = w.auth_of(a);
+        match self.r.gen_range(0..6) {
+            0 => {
+                let nk = w.next_kp();
+                let new_user = self.r.gen_range(0..w.users.len());
+                let na = w.users[new_user].kp.pubkey();
+                let p = w.chain.payer.pubkey();
+                let i = ix::transfer_account(gk, w.accts[a].key, nk.pubkey(), auth.pubkey(), p, na, w.fee_wallet.pubkey());
+                let o = w.exec(m, &[i], &[&auth, &nk]).await;
+                if o.ok() {
+                    w.accts.push(AcctD { key: nk.pubkey(), group: self.g, user: new_user });
+                }
+                o
+            }
+            1 => {
+                let p = w.chain.payer.pubkey();
+                let i = ix::close_account(w.accts[a].key, auth.pubkey(), p);
+                let o = w.exec(m, &[i], &[&auth]).await;
+                if o.ok() {
+                    // keep indices stable: replace the closed account by a fresh one of the same user
+                    let u = w.accts[a].user;
+                    let na = w.add_account(self.g, u).await;
+                    let moved = w.accts.pop().unwrap();
+                    w.accts[a] = moved;
+                    let _ = na;
+                }
+                o
+            }
+            2 | 3 => {
+                let i = ix::set_freeze(gk, w.accts[a].key, admin.pubkey(), self.r.gen_bool(0.5));
+                w.exec(m, &[i], &[&admin]).await
+            }
+            4 => {
+                // an admin role acts on a (possibly frozen) account
+                let b = self.some_bank(w);
+                let ta = w.ta_of(a, b);
+                let gd = &w.groups[self.g];
+                let who = match self.r.gen_range(0..4) {
+                    0 => clone_kp(&gd.risk),
+                    1 => clone_kp(&gd.limit),
+                    _ => clone_kp(&admin),
+                };
+                let i = w.ix_withdraw(a, b, who.pubkey(), ta, 1, None);
+                w.exec(m, &[i], &[&who]).await
+            }
+            _ => {
+                let b = self.some_bank(w);
+                let cur = w.bank(b).config.asset_tag;
+                let mut o = BankConfigOpt::default();
+                o.asset_tag = Some(if cur == 0 { 1 } else { 0 });
+                let i = ix::configure_bank(gk, admin.pubkey(), w.banks[b].key, o);
+                w.exec(m, &[i], &[&admin]).await
+            }
         }
     }
 
